@@ -60,8 +60,11 @@ func (w *world) open(id string) {
 
 func newWorld() *world { return newWorldOn(nil) }
 
-// newWorldOn starts the server on the in-memory listener, optionally wrapped (TLS).
-func newWorldOn(wrap func(net.Listener) net.Listener) *world {
+func newWorldOn(wrap func(net.Listener) net.Listener) *world { return newWorldWith(wrap, true) }
+
+// newWorldWith starts the server on the in-memory listener, optionally wrapped (TLS), with or without the
+// application's own Discover Versions route.
+func newWorldWith(wrap func(net.Listener) net.Listener, ownDiscover bool) *world {
 	w := &world{l: memnet.Listen(), done: make(chan error, 1)}
 	ex := kmipserver.NewBatchExecutor()
 	ex.Route(kmip.OperationActivate, kmipserver.HandleFunc(func(ctx context.Context, req *payloads.ActivateRequestPayload) (*payloads.ActivateResponsePayload, error) {
@@ -98,12 +101,14 @@ func newWorldOn(wrap func(net.Listener) net.Listener) *world {
 		return &payloads.ActivateResponsePayload{UniqueIdentifier: id}, nil
 	}))
 	// the application answers Discover Versions itself; its handler is as fallible as any other
-	ex.Route(kmip.OperationDiscoverVersions, kmipserver.HandleFunc(func(ctx context.Context, req *payloads.DiscoverVersionsRequestPayload) (*payloads.DiscoverVersionsResponsePayload, error) {
-		if len(req.ProtocolVersion) == 3 {
-			panic("discover handler panic")
-		}
-		return &payloads.DiscoverVersionsResponsePayload{ProtocolVersion: []kmip.ProtocolVersion{kmip.V1_4}}, nil
-	}))
+	if ownDiscover {
+		ex.Route(kmip.OperationDiscoverVersions, kmipserver.HandleFunc(func(ctx context.Context, req *payloads.DiscoverVersionsRequestPayload) (*payloads.DiscoverVersionsResponsePayload, error) {
+			if len(req.ProtocolVersion) == 3 {
+				panic("discover handler panic")
+			}
+			return &payloads.DiscoverVersionsResponsePayload{ProtocolVersion: []kmip.ProtocolVersion{kmip.V1_4}}, nil
+		}))
+	}
 	var ln net.Listener = w.l
 	if wrap != nil {
 		ln = wrap(w.l)
@@ -703,7 +708,7 @@ func history(c *core.Ctx, r *core.Rand, i int) {
 	close(stopPing)
 	<-pingDone
 	label := fmt.Sprintf("history %d with %d connections", i, nconn)
-	if pingFailed.Load() || !ping(1 << 20) {
+	if pingFailed.Load() || !ping(1<<20) {
 		c.Violation("C08:canary-not-served", "the canary connection stopped being served while other clients misbehaved ("+label+")", nil)
 	}
 	for _, lg := range logs {
@@ -1023,7 +1028,7 @@ func Spec() *core.Spec {
 			"every request and response carries a unique id (Unique Batch Item ID) so each connection's received sequence is checked against its sent sequence (exactly once, in order, never more; complete when the client drained); " +
 			"the binary hostile corpus of C02 (length/type ladders over every item of valid requests, random mutations) fed one input per connection; a canary connection is pinged throughout; goroutine census at quiescence; Shutdown at the end; directed schedules through the verif hooks. The worker process is the crash monitor. a TLS listener with peers stalling in, garbling or abandoning the handshake while well-behaved TLS clients must be served and Shutdown must return; distinct = distinct per-connection action sequences",
 		Assumptions: []string{"a connection closed abruptly by the client may end short, never long or out of order", "goroutines gone = none with a library frame (other than the accept loop) within 10 s of the last connection ending"},
-		Required: []string{"discover_handler_panics", "undecodable_requests.kind4", "histories", "tls_histories", "tls_good_clients", "tls_hostile_peers.kind0", "tls_hostile_peers.kind1", "tls_shutdowns_with_stalled_peers", "connections", "responses_received", "graceful_connections_fully_answered", "canary_pings", "census_checks", "undecodable_requests.kind0", "undecodable_requests.kind1",
+		Required: []string{"discover_handler_panics", "wrong_count_requests", "builtin_discover_sublists", "pipelined_undecodable_connections", "undecodable_requests.kind4", "histories", "tls_histories", "tls_good_clients", "tls_hostile_peers.kind0", "tls_hostile_peers.kind1", "tls_shutdowns_with_stalled_peers", "connections", "responses_received", "graceful_connections_fully_answered", "canary_pings", "census_checks", "undecodable_requests.kind0", "undecodable_requests.kind1",
 			"directed.client-gone-while-send-holds-tx", "hostile_inputs_framed", "hostile_rounds"},
 		Shards: func(string) int { return 8 },
 		Families: []core.Family{
@@ -1051,6 +1056,19 @@ func Spec() *core.Spec {
 				}
 				return 4
 			}, Run: discoverPanicCase, Timeout: 60 * time.Second},
+			{Name: "wrong-count", Exhaustive: true, N: func(string) int { return len(countShapes) }, Run: wrongCountCase, Timeout: 60 * time.Second},
+			{Name: "builtin-discover", N: func(tier string) int {
+				if tier == core.Thorough {
+					return 400
+				}
+				return 12
+			}, Run: builtinDiscoverCase, Timeout: 60 * time.Second},
+			{Name: "pipelined-undecodable", N: func(tier string) int {
+				if tier == core.Thorough {
+					return 300
+				}
+				return 10
+			}, Run: pipelinedUndecodableCase, Timeout: 90 * time.Second},
 			{Name: "undecodable", Exhaustive: true, N: func(string) int { return 15 }, Run: undecodableCase, Timeout: 30 * time.Second},
 			{Name: "directed", N: func(tier string) int {
 				if tier == core.Thorough {
